@@ -223,15 +223,20 @@ Proof. exact auto_theta_final_composed. Qed.
 (* COMPOSED with the generated / proved kernels of C03 / C04 (oracles_of_model: Model/Cfg_Composed.v): each "auto" field IS the
    value those models compute on the setup built so far -- the crystal angle is C04's optimum_theta of the composed cost (and lies
    in [0, pi/2]); an accepted automatic period is C04's optimum_poling_period (0 < |period| <= L); the automatic idler is C03's
-   optimum_idler of the final signal / pump / crystal / poling, where its emission angle is defined (arg > 0, |val| <= 1). *)
+   optimum_idler of the final signal / pump / crystal / poling, where its emission angle is defined (arg > 0, |val| <= 1) -- each
+   where every candidate of the search has a defined cost (with the NaN-safe solver an undefined candidate costs +infinity and the
+   result is that of the guarded search, which need not be C04's). *)
 Theorem C16_auto_is_explicit_composed : forall index_of snell_inv sd_theta sd_period U rj (c : spdc_cfg R) s nf,
   try_as_spdc_steps R_ops U (oracles_of_model index_of snell_inv sd_theta sd_period) GA.opp_min_period rj c = Ok (s, nf) ->
   (cc_theta_deg (c_crystal c) = Auto ->
-     exists e, o_snell_ext (oracles_of_model index_of snell_inv sd_theta sd_period) (s_signal s) (cfg_cs0 R_ops c) = Some e /\
+     forall e, o_snell_ext (oracles_of_model index_of snell_inv sd_theta sd_period) (s_signal s) (cfg_cs0 R_ops c) = Some e ->
+     (forall x, theta_cost_defined index_of snell_inv (erase_theta R_ops (cfg_cs0 R_ops c)) e (s_signal s) (s_pump s) x = true) ->
        cs_theta (s_crystal s) =
          MA.optimum_theta (theta_cost_c index_of snell_inv (erase_theta R_ops (cfg_cs0 R_ops c)) e (s_signal s) (s_pump s)) MA.real_ops sd_theta /\
        0 <= cs_theta (s_crystal s) <= PI / 2) /\
   (forall a, c_pp c = PCConfig Auto a -> ~ In NFPeriodInfinite nf ->
+     idler_defined index_of (s_signal s) (s_pump s) (cfg_cs0 R_ops c) MI.PPOff = true ->
+     (forall x, period_cost_defined index_of (s_signal s) (s_pump s) (cfg_cs0 R_ops c) x = true) ->
      exists v, MA.optimum_poling_period (dkz_c index_of (s_signal s) (s_pump s) (cfg_cs0 R_ops c)) MA.real_ops sd_period
                  (cs_length (cfg_cs0 R_ops c)) = MA.AutoOk v /\
                s_pp s = poling_new R_ops v (apod_of_cfg R_ops a) /\ 0 < Rabs v <= cs_length (cfg_cs0 R_ops c)) /\
